@@ -216,7 +216,7 @@ func canarySpecs(level int) []*v1.ExtendedDaemonSetSpecStrategyCanary {
 			replicas = []*intstr.IntOrString{nil, mk("1"), mk("50%"), mk("abc")}
 			durs = durVals(0, 10*time.Minute)
 			nors = durVals(10 * time.Minute)
-			mrs = i32Vals(0, 2, 5)
+			mrs = i32Vals(0, -1, 2, 5)
 			cts = durVals(time.Minute, 15*time.Minute)
 		}
 		for _, en := range boolVals() {
